@@ -100,5 +100,130 @@ for nd in range(1, 5):
             bad += 0 if np.rollaxis(a, axis, start).shape == tuple(a.shape[i] for i in model_roll(nd, axis, start)) else 1
 record("rollaxis permutation rule (ndim <= 4, every axis and start, negatives included)", n, bad)
 
+# ---- round 2 -----------------------------------------------------------------------------------------------------------
+import warnings
+warnings.simplefilter("ignore")
+
+# 7. row-major reshape: merging adjacent dimensions puts cell (i, j, k) at ((i*n1)+j)*n2+k; splitting is the inverse; the pairing
+#    axioms (A1: fst/snd invert pair on the ranges, A2: pair inverts (fst, snd) below the product) hold for pair = i*n1 + j
+bad = n = 0
+for n0, n1, n2 in itertools.product(range(0, 4), repeat=3):
+    a = np.arange(n0 * n1 * n2, dtype=float).reshape(n0, n1, n2)
+    m01, m12, m012 = a.reshape(n0 * n1, n2), a.reshape(n0, n1 * n2), a.reshape(n0 * n1 * n2)
+    for i, j, k in itertools.product(range(n0), range(n1), range(n2)):
+        n += 1
+        ok = m01[i * n1 + j, k] == a[i, j, k] and m12[i, j * n2 + k] == a[i, j, k] and m012[(i * n1 + j) * n2 + k] == a[i, j, k]
+        bad += 0 if ok else 1
+    back = m012.reshape(n0, n1, n2)
+    n += 1; bad += 0 if np.array_equal(back, a) else 1
+    for g in range(n0 * n1):
+        n += 1; bad += 0 if (0 <= g // n1 < n0 and 0 <= g % n1 < n1 and (g // n1) * n1 + g % n1 == g) else 1
+    if n0 * n1 * n2:
+        for g in range(n0 * n1 * n2):
+            n += 1; bad += 0 if tuple(int(t) for t in np.unravel_index(g, (n0, n1, n2))) == ((g // n2) // n1, (g // n2) % n1, g % n2) else 1
+record("reshape is row-major (merge / split of adjacent dimensions), pairing axioms A1 / A2, unravel_index = inverse pairing", n, bad)
+
+# 8. reshape(order='F') = transpose . row-major reshape onto reversed extents . transpose; order='A' follows Fortran contiguity
+bad = n = 0
+for shp, new in (((2, 3), (6,)), ((2, 3, 4), (6, 4)), ((2, 3, 4), (2, 12)), ((6,), (2, 3)), ((2, 12), (2, 3, 4))):
+    a = np.arange(int(np.prod(shp)), dtype=float).reshape(shp)
+    for arr in (a, np.asfortranarray(a), a.T.copy().T):
+        n += 1; bad += 0 if np.array_equal(arr.reshape(new, order="F"), arr.T.reshape(tuple(reversed(new))).T) else 1
+    if a.ndim >= 2:      # (a 1-d array is C- and F-contiguous at once: NumPy's 'A' means C there, and so does the model)
+        n += 1; bad += 0 if np.array_equal(a.T.reshape(tuple(reversed(new)), order="A"), a.T.reshape(tuple(reversed(new)), order="F")) else 1   # full transpose of a C array is F-contiguous
+    else:
+        n += 1; bad += 0 if np.array_equal(a.reshape(new, order="A"), a.reshape(new, order="C")) else 1
+    n += 1; bad += 0 if np.array_equal(a.reshape(new, order="A"), a.reshape(new, order="C")) else 1
+record("reshape(order='F') by transposition; order='A' = 'F' for the full transpose of a fresh array and 'C' for a fresh array", n, bad)
+
+# 9. np.array of a list of arrays: ValueError iff the shapes differ (no silent object array)
+bad = n = 0
+for s1, s2 in itertools.product([(0,), (1,), (2,), (2, 1), (1, 2)], repeat=2):
+    n += 1
+    try:
+        r = np.array([np.zeros(s1), np.zeros(s2)]); raised = False
+    except ValueError:
+        raised = True
+    bad += 0 if raised == (s1 != s2) else 1
+record("np.array([a, b]) raises ValueError iff the shapes differ", n, bad)
+
+# 10. elementwise == between arrays of different lengths: ValueError unless one has length 1 (broadcast)
+bad = n = 0
+for la, lb in itertools.product(range(0, 4), repeat=2):
+    n += 1
+    try:
+        np.zeros(la) == np.zeros(lb); raised = False
+    except ValueError:
+        raised = True
+    bad += 0 if raised == (la != lb and la != 1 and lb != 1) else 1
+record("a == b raises ValueError iff the lengths differ and neither is 1", n, bad)
+
+# 11. counting law for the sum of a boolean array along an axis; np.diff(n) = iterated first difference
+bad = n = 0
+for bits in itertools.product([False, True], repeat=6):
+    m = np.array(bits).reshape(3, 2)
+    for ax in (0, 1):
+        c = m.sum(axis=ax); ext = m.shape[ax]
+        for j, cj in enumerate(c):
+            col = m[:, j] if ax == 0 else m[j, :]
+            n += 1
+            bad += 0 if (0 <= cj <= ext and (cj == 0) == (not col.any()) and (cj == ext) == bool(col.all())) else 1
+rng = np.random.RandomState(0)
+for _ in range(50):
+    a = rng.rand(5, 4)
+    for k in (1, 2, 3):
+        for ax in (0, 1):
+            r = a
+            for _k in range(k):
+                r = np.diff(r, axis=ax)
+            n += 1; bad += 0 if np.array_equal(np.diff(a, n=k, axis=ax), r) else 1
+record("boolean sum along an axis: 0 <= count <= extent, 0 iff none true, extent iff all true; np.diff(n=k) = k first differences", n, bad)
+
+# 12. arithmetic ufuncs: a NaN operand gives NaN (not for power); add and multiply commute bit for bit; np.percentile of a list
+#     of percentiles stacks the results along a new first axis; ufunc on an object with __array_wrap__ hands the result to it
+vals = [0.0, -0.0, 1.0, -2.5, 3.0, np.inf, -np.inf, np.nan]
+bad = n = 0
+for f in (np.add, np.subtract, np.multiply, np.true_divide, np.floor_divide):
+    for x in vals:
+        n += 2
+        bad += 0 if np.isnan(f(np.nan, x)) and np.isnan(f(x, np.nan)) else 1
+for f in (np.add, np.multiply):
+    for x, y in itertools.product(vals, repeat=2):
+        n += 1
+        u, v = f(x, y), f(y, x)
+        bad += 0 if (u == v or (np.isnan(u) and np.isnan(v))) else 1
+a = rng.rand(4, 3)
+for ax in (0, 1):
+    qs = [10.0, 50.0, 90.0]
+    r = np.percentile(a, qs, axis=ax)
+    n += 1; bad += 0 if r.shape == (3,) + tuple(s_ for k_, s_ in enumerate(a.shape) if k_ != ax) and all(np.array_equal(r[i], np.percentile(a, q, axis=ax)) for i, q in enumerate(qs)) else 1
+class _W(object):
+    def __init__(self, v): self.values = v; self.wrapped = None
+    def __array__(self, dtype=None, copy=None): return self.values
+    def __array_wrap__(self, result, context=None, return_scalar=False): self.wrapped = result; return ("wrapped", result)
+w = _W(np.array([1.0, np.nan]))
+r = np.isnan(w)
+n += 1; bad += 0 if isinstance(r, tuple) and r[0] == "wrapped" and list(r[1]) == [False, True] else 1
+record("ufunc laws: NaN propagation, commutativity of add / multiply, np.percentile(list) stacking, __array_wrap__ dispatch of np.isnan", n, bad)
+
+# 13. NumPy's placement rule in ASSIGNMENT: an integer next to an array index counts as advanced; when the advanced indices are
+#     separated by a slice their dimensions come FIRST in the selection, so that is the layout the value must have
+bad = n = 0
+a = np.zeros((2, 3, 4))
+for key, shape in (((0, slice(None), [1, 3]), (2, 3)), ((slice(None), 0, [1, 3]), (2, 2)), (([0, 1], slice(None), 2), (2, 3)), ((slice(None), [0, 2], 1), (2, 2)),
+                   ((0, slice(0, 2), [1, 3, 0]), (3, 2)), ((1, [0, 2], slice(None)), (2, 4))):
+    n += 1
+    bad += 0 if a[key].shape == shape else 1
+    v = np.arange(float(np.prod(shape))).reshape(shape)
+    b = a.copy(); b[key] = v
+    n += 1; bad += 0 if np.array_equal(b[key], v) else 1
+    if shape[0] != shape[1]:
+        n += 1
+        try:
+            c = a.copy(); c[key] = v.T; bad += 1
+        except ValueError:
+            pass
+record("placement rule of separated advanced indices (integers included) for reads and writes", n, bad)
+
 print(json.dumps({"numpy": np.__version__, "results": results}, indent=1))
 sys.exit(3 if any(r["mismatches"] for r in results) else 0)
